@@ -13,6 +13,8 @@
  *   p<c>,<v> push   o<c> pop   i<c>,<i>,<v> push_at   x<c>,<i> pop_at   s<c>,<i>,<v> set
  *   r<c>,<v> rem    c<c>,<d> concat   z<c>,<n> resize   q<c> sort   a<c>,<d> assign
  *   y<d> copy       d<c> del   m<c>,<k>,<v> map set   n<c>,<k> map rem
+ *   FAILING operations (must raise and change nothing: no construction, no destruction, same contents):
+ *   w<c> push / W<c>,<i> push_at / v<c>,<i> set of a wrong-typed element (an Int)   u<c>,<k> map set with a wrong-typed value
  * transcript per op:  <out>;C<n>;D<v,..sorted>;Z<n>;live=<n>;<dump>;<flags>
  *   dump: containers separated by '/':  <id>A[v.t,v.t]  <id>T{k.t=v.t,..sorted by key}  <id>B(v.t)  <id>-
  *   flags: DBL (token destructed twice), UNK (destruct of a never issued token),
@@ -64,6 +66,10 @@ static void Probe_Del(var self) {
 }
 
 static void Probe_Assign(var self, var obj) {
+  /* an element type that refuses sources it cannot take, BEFORE touching the target (like Int_Assign on a String) */
+  if (type_of(obj) isnt ProbeN and type_of(obj) isnt ProbeW) {
+    throw(TypeError, "Probe cannot be assigned from %$", type_of(obj));
+  }
   struct Core* p = core(self); struct Core* o = core(obj);
   p->v = o->v;
   if (p->tok == 0) probe_construct(self);         /* first assign into zero-filled memory */
@@ -192,6 +198,10 @@ static void one_case(char* line) {
             case 'd':
               if (kind[c] == K_BOX) del_root(C[c]); else if (managed[c]) del(C[c]); else del_raw(C[c]);
               kind[c] = K_NONE; C[c] = NULL; break;
+            case 'w': if (!sq) { res = "SKIP"; break; } push(C[c], $I(5)); break;
+            case 'W': if (!sq) { res = "SKIP"; break; } { int64_t i = num(&q); push_at(C[c], $I(5), $I(i)); } break;
+            case 'v': if (!sq) { res = "SKIP"; break; } { int64_t i = num(&q); set(C[c], $I(i), $I(5)); } break;
+            case 'u': if (!mp) { res = "SKIP"; break; } { int64_t k = num(&q); set(C[c], carrier_of(kt[c], k), $I(5)); } break;
             case 'm': if (!mp) { res = "SKIP"; break; } { int64_t k = num(&q); int64_t v = num(&q); set(C[c], carrier_of(kt[c], k), carrier_of(vt[c], v)); } break;
             case 'n': if (!mp) { res = "SKIP"; break; } rem(C[c], carrier_of(kt[c], num(&q))); break;
             default: res = "BADOP";
